@@ -664,11 +664,19 @@ pub fn run_check(prop: &str, tier: &str) -> i32 {
             eprintln!("no sequential spec for {}", prop);
             return 2;
         };
-        let out = explore(&pool, &spec, &kf);
-        let rule = format!(
+        let mut out = explore(&pool, &spec, &kf);
+        if prop == "C04" && out.violations.is_empty() {
+            // part (b): injected I/O failures, with whatever the BFS left of the time budget
+            let cap = if tier_is_thorough(tier) { 600.0 } else { 25.0 };
+            crate::faults::run(&pool, tier, &kf, &mut out, cap);
+        }
+        let mut rule = format!(
             "BFS over op sequences (alphabet and roots in DESIGN.md section {}), depth <= {}, one execution of the real engine per transition; a state is distinct when (engine digest, model state) is new; non-trivial = survived the oracle and was not merged",
             prop, spec.max_depth
         );
+        if prop == "C04" {
+            rule.push_str("; plus fault enumeration: 3 prefixes x 7 appends/batches (one to nine entries, one to three blocks, file roll-over) x every placement of one (thorough: also every pair of) injected failure(s) at the seams the operation passes (k-th flush, k-th file creation, io_uring submission, negative and short completion of every entry of the batch) x {in-process, restart} tails, each executed on the real engine and stepped through the model that ignores failed appends (per_config keys faults/<config>: placements, executions)");
+        }
         (out, rule)
     };
     let wall = t0.elapsed().as_secs_f64();
